@@ -1239,23 +1239,31 @@ def build_image(tree, block_size=4096, comp=1, use_frags=True, exportable=True, 
     return bytes(img), fmap, info
 
 
-def chain_image(depth, block_size=4096):
-    """A completely valid image d/d/d/.../d with `depth` nested directories (one entry each), written without building path strings."""
-    N = depth + 1                                  # directory inodes; number k (1 = deepest) at stream offset 32 * (k - 1); root = N
+def chain_image(depth, block_size=4096, name=b"d", leaf_file=False):
+    """A completely valid image d/d/d/.../d with `depth` nested directories (one entry each), written without building path strings.
+    `name` is the (identical) name of every directory; with a long name the deepest path gets very long.  leaf_file puts an empty
+    regular file "f" into the deepest directory."""
+    N = depth + 1                                  # directory inodes; number k (1 = deepest) ; root = N
+    base = 32 if leaf_file else 0                  # the file inode (number N + 1) sits in front of the directory inodes
+    ent = 20 + len(name)
+    leaf = 21 if leaf_file else 0                  # listing of the deepest directory
     ino = bytearray()
     dirs = bytearray()
+    if leaf_file:
+        ino += struct.pack("<HHHHII", 2, 0o644 | 0o100000, 0, 0, 0, N + 1) + struct.pack("<IIII", 0, 0xFFFFFFFF, 0, 0)
+        dirs += struct.pack("<III", 0, 0, N + 1) + struct.pack("<HhHH", 0, 0, 2, 0) + b"f"
     for k in range(1, N + 1):
         if k == 1:
-            size, doff, links = 3, 0, 2
+            size, doff, links = leaf + 3, 0, 2
         else:
-            doff = 21 * (k - 2)
-            size, links = 21 + 3, 3
+            doff = leaf + ent * (k - 2)
+            size, links = ent + 3, 3
         ino += struct.pack("<HHHHII", 1, 0o755 | 0o040000, 0, 0, 0, k)
-        ino += struct.pack("<IIHHI", (doff // META) * (META + 2), links, size, doff % META, k + 1 if k < N else N + 1)
+        ino += struct.pack("<IIHHI", (doff // META) * (META + 2), links, size, doff % META, k + 1 if k < N else N + 2)
         if k >= 2:
-            child_off = 32 * (k - 2)
+            child_off = base + 32 * (k - 2)
             dirs += struct.pack("<III", 0, (child_off // META) * (META + 2), k - 1)
-            dirs += struct.pack("<HhHH", child_off % META, 0, 1, 0) + b"d"
+            dirs += struct.pack("<HhHH", child_off % META, 0, 1, len(name) - 1) + name
 
     def ser(buf):
         out = bytearray()
@@ -1275,8 +1283,8 @@ def chain_image(depth, block_size=4096):
     bytes_used = len(img)
     NONE = 0xFFFFFFFFFFFFFFFF
     flags = F_UNCOMP_INODES | F_UNCOMP_FRAGS | F_UNCOMP_XATTRS | F_UNCOMP_IDS | F_UNCOMP_DATA | F_DUPLICATES | F_NO_XATTRS | F_NO_FRAGS
-    root_off = 32 * (N - 1)
-    img[0:96] = struct.pack("<IIIIIHHHHHHQQQQQQQQ", MAGIC, N, 0, block_size, 0, 1, block_size.bit_length() - 1, flags, 1, 4, 0,
+    root_off = base + 32 * (N - 1)
+    img[0:96] = struct.pack("<IIIIIHHHHHHQQQQQQQQ", MAGIC, N + (1 if leaf_file else 0), 0, block_size, 0, 1, block_size.bit_length() - 1, flags, 1, 4, 0,
                             ((root_off // META) * (META + 2)) << 16 | (root_off % META), bytes_used, id_table, NONE, inode_table, dir_table, NONE, NONE)
     if len(img) % 4096:
         img += bytes(4096 - len(img) % 4096)
